@@ -1,4 +1,5 @@
 import Dashu.Proofs.Trans.Series
+import Dashu.Proofs.Trans.SeriesBound
 /-
   C11 — the MIRRORED numerical bodies of `float/src/exp.rs` / `float/src/log.rs`
   (`Model/Trans/Series.lean`: `expBody`, `lnBody`, `iacoth`, `ln2`, `ln10`, `lnBase`, `powfBody`, executed by the
@@ -14,9 +15,14 @@ import Dashu.Proofs.Trans.Series
   * the working-precision formulas the mirror evaluates, spelled out (`*_eq`): these are the texts tied to the source
     by `vlib/props/c11.py` `source_formulas` (a changed formula in `/repo` is reported as a broken correspondence).
 
-  NOT proved (see `vlib/props/c11.py` FRONTIER): an explicit bound on the number of terms (termination of the
-  series for every input) — it needs a two-sided quality bound on `digits_lb`, which the oracle hypothesis
-  `DlbSound` does not give, and a real-valued decay argument through the rounded `FBig` operators.
+  Round 5: an EXPLICIT STEP BOUND for the Maclaurin loop of `exp_internal` (scaled branch: reduced argument
+  `0 < r ≤ B^(−u)`) under the explicit two-sided hypothesis `DlbTight` on `digits_lb` (`expLoop_step_bound`; the driver
+  checks the hypotheses and the bound on every mirrored `exp` case), the lemma that `sum += increase` keeps a sum `≥ 1`
+  for operands of any length (`sum_add_keeps_one`), and the error propagation through one stage of the loop
+  (`expStage_error`, `expTerms_error`: the k-th term is `r^k / k!` up to `k` relative errors `B^(1−w)`).
+
+  NOT proved (see `vlib/props/c11.py` FRONTIER): step bounds for the atanh loops (`ln_internal`, `iacoth`) and for the
+  unscaled `exp_m1` branch (alternating series), and the accumulated error of the partial SUM.
 -/
 namespace Dashu.Props.C11Series
 open Dashu.Model.Float Dashu.Model.Trans
@@ -154,6 +160,72 @@ theorem subUlp_le (E : Env) (h : DlbSound E.B E.est.dlb) (x : FBigM) :
       (fSubUlp E x).exp ≤ x.repr.exp + (digitsI E.B x.repr.signif : Int) - (x.prec : Int) - 1 :=
   Dashu.Proofs.Trans.Series.fSubUlp_le E h x
 
+
+/-! ### Round 5: explicit step bound of the Maclaurin loop, `sum += increase`, error of the terms -/
+
+open Dashu.Proofs.Trans.SeriesBound in
+/-- **`sum += increase`**: `FBig + FBig` with a left operand of value `≥ 1` and a positive right operand of ANY length
+    (the quotient `increase` may carry `p+1` digits — outside `Props/C03.add_sub_contract`) never returns less than `1` -/
+theorem sum_add_keeps_one (E : Env) (hB : 2 ≤ E.B) (hc : CoarseSound E.c) (hdub : DubSound E.B E.est.dub) (x y : FBigM)
+    (hp : 1 ≤ ctxMaxP x.prec y.prec) (hx : 1 ≤ x.repr.toRat E.B) (hy : 0 < y.repr.signif) :
+    1 ≤ (fAddSub E x y 1).repr.toRat E.B :=
+  fAddSub_keeps E hB hc hdub x y hp hx hy
+
+open Dashu.Proofs.Trans.SeriesBound in
+/-- **Step bound of the Maclaurin loop of `exp_internal`** from its entry state (`factorial = 1`, `pow = r`,
+    `sum = 1 + r`, `k = 2`), reduced argument `0 < r ≤ B^(−u)` at the working precision `w ≥ 1`.
+    Hypotheses on the estimate oracles: `digits_ub` sound, `round_fract`'s coarse test sound, and the TWO-SIDED quality of
+    `digits_lb`: `digits(v) ≤ digits_lb(v) + cS` (`DlbTight`; the other side `DlbSound` is what makes `sub_ulp` smaller
+    than an ulp).  Then with any fuel `≥ 1` such that `u·(fuel + 1) ≥ w + cS + 1` the loop returns a value — the fuel
+    does not run out, no division fails — and the index `k` of the last term is `2` or satisfies
+    `u·(k − 1) < w + cS + 1` (at most `(w + cS)/u + 1` terms beyond the first two). -/
+theorem expLoop_step_bound (E : Env) (hB : 2 ≤ E.B) (hc : CoarseSound E.c) (hdub : DubSound E.B E.est.dub) (cS : Nat)
+    (hd : DlbTight E.B E.est.dlb cS) (r : FBigM) (w u : Nat) (hw : 1 ≤ w) (hrp : r.prec = w)
+    (hr0 : 0 < r.repr.signif) (hru : r.repr.toRat E.B ≤ bpowQ E.B (-(u : Int)))
+    (fuel : Nat) (hf1 : 1 ≤ fuel) (hfuel : w + cS + 1 ≤ u * (fuel + 1)) :
+    ∃ res, expLoop E r fuel 1 r (fAddSub E FBigM.one r 1) 2 = .ok (some res) ∧ 2 ≤ res.2 ∧
+      (res.2 = 2 ∨ u * (res.2 - 1) < w + cS + 1) :=
+  expLoop_bound E hB hc hdub cS hd r w u hw hrp hr0 hru fuel hf1 hfuel
+
+/-- the fuel `(w + cS)/u + 1` always meets the hypothesis of `expLoop_step_bound` -/
+theorem expLoop_fuel_suffices (w cS u : Nat) (hu : 1 ≤ u) : w + cS + 1 ≤ u * ((w + cS) / u + 1 + 1) :=
+  Dashu.Proofs.Trans.SeriesBound.expLoop_fuel_suffices w cS u hu
+
+/-- **error propagation through one stage of the Maclaurin loop** (`pow *= &r; increase = &pow / &factorial`) with
+    `ε = B^(1−w)`: `j` accumulated relative errors in `pow` become `j + 1` in the new `pow` and `j + 2` in the term -/
+theorem expStage_error (E : Env) (hB : 2 ≤ E.B) (hc : CoarseSound E.c) (r pw : FBigM) (w : Nat) (hw : 1 ≤ w)
+    (hrp : r.prec = w) (hpp : pw.prec = w) (F : Int) (hF : 1 ≤ F) (j : Nat) (t : ℚ)
+    (h : Approx (bpowQ E.B (1 - (w : Int))) j (pw.repr.toRat E.B) t) :
+    Approx (bpowQ E.B (1 - (w : Int))) (j + 1) ((fMul E pw r).repr.toRat E.B) (t * r.repr.toRat E.B) ∧
+    ∃ inc, fDiv E (fMul E pw r) (fOfInt E.B F) = .ok inc ∧
+      Approx (bpowQ E.B (1 - (w : Int))) (j + 2) (inc.repr.toRat E.B) (t * r.repr.toRat E.B * (1 / (F : ℚ))) :=
+  Dashu.Proofs.Trans.SeriesBound.expStage_error E hB hc r pw w hw hrp hpp F hF j t h
+
+open Dashu.Proofs.Trans.SeriesBound in
+/-- **the terms of the Maclaurin series as the loop computes them**: before the step with index `k = i + 2` the loop
+    holds `factorial = (k−1)!` and `pow ≈ r^(k−1)` (`k − 2` relative errors `B^(1−w)`); the term `increase` it forms is
+    `r^k / k!` up to `k` accumulated relative errors (`expState` = the `(factorial, pow)` the loop's recursion passes,
+    `expLoop_state`) -/
+theorem expTerms_error (E : Env) (hB : 2 ≤ E.B) (hc : CoarseSound E.c) (r : FBigM) (w : Nat) (hw : 1 ≤ w)
+    (hrp : r.prec = w) (i : Nat) :
+    (expState E r i).1 = ((i + 1).factorial : Int) ∧
+    Approx (bpowQ E.B (1 - (w : Int))) i ((expState E r i).2.repr.toRat E.B) ((r.repr.toRat E.B) ^ (i + 1)) ∧
+    ∃ inc, fDiv E (fMul E (expState E r i).2 r) (fOfInt E.B ((expState E r i).1 * ((i + 2 : Nat) : Int))) = .ok inc ∧
+      Approx (bpowQ E.B (1 - (w : Int))) (i + 2) (inc.repr.toRat E.B)
+        ((r.repr.toRat E.B) ^ (i + 2) / ((i + 2).factorial : ℚ)) :=
+  Dashu.Proofs.Trans.SeriesBound.expTerms_error E hB hc r w hw hrp i
+
+open Dashu.Proofs.Trans.SeriesBound in
+/-- the loop's recursive call passes `(factorial·k, pow·r)`: the next `expState` -/
+theorem expLoop_state (E : Env) (r : FBigM) (fuel : Nat) (fa : Int) (pw sm : FBigM) (k : Nat) :
+    expLoop E r (fuel + 1) fa pw sm k =
+      match fDiv E (fMul E pw r) (fOfInt E.B (fa * (k : Int))) with
+      | .error e => .error e
+      | .ok increase =>
+        if reprAbsCmp E.B increase.repr (fSubUlp E sm) ≠ .gt then .ok (some (sm, k))
+        else expLoop E r fuel (fa * (k : Int)) (fMul E pw r) (fAddSub E sm increase 1) (k + 1) :=
+  expLoop_unfold E r fuel fa pw sm k
+
 /-! non-vacuity: the loops do end on concrete inputs (base 10, mode HalfEven, a sound estimate oracle) -/
 
 /-- an oracle built from exact digit counts (sound for `dub`/`dlb`; the driver uses the `f32` replica instead) -/
@@ -181,5 +253,22 @@ example : (match lnBody 60 E10 4 ⟨2, 0⟩ false with | .ok r => r.1.2.isSome |
 example : (match expBody 60 E10 4 ⟨1, 0⟩ false with | .ok r => r.1.2.isSome | .error _ => false) = true := by
   decide +kernel
 example : DlbSound 10 (exactEst 10).dlb := fun _ => Nat.sub_le _ _
+
+/-! non-vacuity of `expLoop_step_bound` / `sum_add_keeps_one`: base 10, `r = 0.005` held at 6 digits (`u = 2`), the exact
+    digit-count oracle with `digits_lb = digits − 1` (`cS = 1`), fuel 5 -/
+theorem coarseNone_sound : CoarseSound coarseNone := fun _ _ _ _ h => by simp [coarseNone] at h
+theorem exactEst_dub_sound (B : Nat) : DubSound B (exactEst B).dub := fun _ => Nat.le_refl _
+theorem exactEst_dlb_tight (B : Nat) : Dashu.Proofs.Trans.SeriesBound.DlbTight B (exactEst B).dlb 1 := fun v => by
+  simp only [exactEst]; omega
+
+example : ∃ res, expLoop E10 ⟨⟨5, -3⟩, 6⟩ 5 1 ⟨⟨5, -3⟩, 6⟩ (fAddSub E10 FBigM.one ⟨⟨5, -3⟩, 6⟩ 1) 2 = .ok (some res) ∧
+    2 ≤ res.2 ∧ (res.2 = 2 ∨ 2 * (res.2 - 1) < 6 + 1 + 1) :=
+  expLoop_step_bound E10 (by decide) coarseNone_sound (exactEst_dub_sound 10) 1 (exactEst_dlb_tight 10)
+    ⟨⟨5, -3⟩, 6⟩ 6 2 (by decide) rfl (by decide)
+    (by decide +kernel) 5 (by decide) (by decide)
+
+example : 1 ≤ (fAddSub E10 ⟨⟨1005, -3⟩, 4⟩ ⟨⟨12345, -9⟩, 4⟩ 1).repr.toRat 10 :=
+  sum_add_keeps_one E10 (by decide) coarseNone_sound (exactEst_dub_sound 10) _ _ (by decide)
+    (by decide +kernel) (by decide)
 
 end Dashu.Props.C11Series
